@@ -21,9 +21,9 @@ each requested modification (other than `none`) adds, in request order; block at
 theorem reference_atoms (ff : FF) (rn : String) (mu mods : Option (List String)) (ref : Block)
     (h : getReference ff rn mu mods = .ok ref) :
     ∃ name b0, targetName rn mu = .ok name ∧ ff.blocks.lookup name = some b0 ∧
-      ref.nodes.map (·.name) = b0.nodes.map (·.name) ++ addedNames ff (mods.getD []) ∧
+      ref.nodes.map (·.name) = b0.nodes.map (·.name) ++ addedNames ff (dedupReq (mods.getD [])) ∧
       ref.nodes.map (·.ptm) = b0.nodes.map (·.ptm)
-        ++ List.replicate (addedNames ff (mods.getD [])).length (some true) := by
+        ++ List.replicate (addedNames ff (dedupReq (mods.getD []))).length (some true) := by
   obtain ⟨name, b0, added, h1, h2, h3, h4, h5⟩ := getReference_spec true ff rn mu mods ref h
   refine ⟨name, b0, h1, h2, ?_, ?_⟩
   · have := congrArg (List.map Prod.fst) h3
@@ -33,7 +33,7 @@ theorem reference_atoms (ff : FF) (rn : String) (mu mods : Option (List String))
     rw [e] at this; exact this
   · have := congrArg (List.map Prod.snd) h3
     simp only [List.map_map, List.map_append] at this
-    have hrep : added.map (·.ptm) = List.replicate (addedNames ff (mods.getD [])).length (some true) := by
+    have hrep : added.map (·.ptm) = List.replicate (addedNames ff (dedupReq (mods.getD []))).length (some true) := by
       rw [← h5, List.length_map]
       clear h3 h5 this
       induction added with
@@ -86,7 +86,7 @@ theorem mutate_twice_same_target_ok (ff : FF) (rn t : String) (rest : List Strin
   | none => simp
   | some b0 =>
     simp only
-    cases hm : applyMods ff (mods.getD []) b0 with
+    cases hm : applyMods ff (dedupReq (mods.getD [])) b0 with
     | ok b1 => simp
     | error e =>
       simp only
